@@ -32,6 +32,7 @@ CLEAN = {'op': 'clean_storage', 'vacuum': False}
 PRE = {
     'empty': [],
     'loose': adds(A + M[:1]),
+    'loose-damaged': adds(A + M[:1]) + [{'op': 'damage_loose', 'c': A[1]}],  # one loose copy holds wrong bytes
     'small': adds(A + B),  # only small objects: their bytes are still in the user-space buffer when the pack is closed
     'plain': adds(A + M[:1]) + [pack('no'), CLEAN],
     'zipped': adds(A + M[:1]) + [pack('yes'), CLEAN],
@@ -61,6 +62,7 @@ def variants(tier: str, default_fsync_only: bool = False):  # noqa: C901
     add('add_object:new', {'op': 'add_object', 'c': NEW[0]}, ['mixed', 'empty', 'loose'])
     add('add_object:new:prefix0', {'op': 'add_object', 'c': NEW[0]}, ['loose'], prefix=0, quick=False)
     add('add_object:dup-of-loose', {'op': 'add_object', 'c': A[1]}, ['loose', 'mixed'])
+    add('add_object:readd-damaged-loose-copy', {'op': 'add_object', 'c': A[1]}, ['loose-damaged'])
     add('add_object:dup-of-packed', {'op': 'add_object', 'c': A[1]}, ['plain'], quick=False)
     add('add_streamed:multichunk', {'op': 'add_streamed', 'c': BIG, 'stream': 'bytesio'}, ['mixed', 'empty'])
     add('add_streamed:dribble', {'op': 'add_streamed', 'c': NEWM, 'stream': 'dribble'}, ['loose'], quick=False)
